@@ -26,6 +26,16 @@ const hubID = "9999"
 
 func validatorKey(i int) *harness.Key { return harness.DetKey(fmt.Sprintf("hub2-validator-%d", i)) }
 
+// registerHub registers the remote BitXHub (chain id 9999, 4 validators) as a relay-chain appchain.
+func registerHub(w *harness.World) error {
+	var addrs []string
+	for i := 0; i < 4; i++ {
+		addrs = append(addrs, validatorKey(i).Addr.String())
+	}
+	tr, _ := json.Marshal(map[string][]string{"addresses": addrs})
+	return w.RegisterAppchain(harness.ChainAdmin("hub2"), hubID, "relaychain", "0x00000000000000000000000000000000000000a2", tr)
+}
+
 // buildHubFixture = extended fixture + a registered remote BitXHub (chain id 9999, 4 validators).
 func buildHubFixture(dir string, o harness.Options) error {
 	w, err := harness.BuildExtended(dir, o)
@@ -33,12 +43,7 @@ func buildHubFixture(dir string, o harness.Options) error {
 		return err
 	}
 	defer w.R.Close()
-	var addrs []string
-	for i := 0; i < 4; i++ {
-		addrs = append(addrs, validatorKey(i).Addr.String())
-	}
-	tr, _ := json.Marshal(map[string][]string{"addresses": addrs})
-	if err := w.RegisterAppchain(harness.ChainAdmin("hub2"), hubID, "relaychain", "0x00000000000000000000000000000000000000a2", tr); err != nil {
+	if err := registerHub(w); err != nil {
 		return err
 	}
 	// spare rules for chainW's rule history
